@@ -15,6 +15,7 @@ mod engine;
 mod fen;
 mod ucifam;
 mod lichess;
+mod pgn;
 
 fn main() {
     let args: Vec<String> = env::args().collect();
@@ -32,6 +33,7 @@ fn main() {
         "fen" => fen::run(rest),
         "uci" => ucifam::run(rest),
         "lichess" => lichess::run(rest),
+        "pgn" => pgn::run(rest),
         other => {
             eprintln!("unknown family {}", other);
             2
